@@ -159,7 +159,15 @@ func cmdCheck(args []string) int {
 	for _, f := range fucs {
 		r := w.verifyFunc(f.fn, f.c)
 		if len(r.errs) > 0 {
-			return toolError("%s", strings.Join(r.errs, "\n  "))
+			// The contracts of this function cannot be evaluated on the current code (a field, local,
+			// loop or callee they mention is gone, or the code uses a construct outside the subset).
+			// A check that stops with a tool error decides nothing, so this is a failed obligation:
+			// whatever the contracts proved about this function is no longer proved.
+			msg := strings.Join(r.errs, "; ")
+			o := &Oblig{Name: shortFuncName(f.fn) + "/contract.not_checkable", Kind: "unstatable", Func: shortFuncName(f.fn), Props: f.c.Serves,
+				Goal: "false", Run: r, Desc: "the contracts of this function cannot be stated on the current code: " + msg,
+				NoSolve: "contracts not evaluable: " + msg}
+			r.Obligs = append(r.Obligs, o)
 		}
 		fnames = append(fnames, shortFuncName(f.fn))
 		pathCount += r.paths
